@@ -137,7 +137,12 @@ def run(ctx):
                     opts = {"min_eps": 1e-10} if method == "davidson" else {}
                     try:
                         with torch.no_grad():
-                            evals, evecs = xitorch.linalg.symeig(A, neig=k if kGiven else None, mode=mode, M=M, method=method, **opts)
+                            if kGiven and nrows % 3 == 0 and mode in ("lowest", "uppest", "uppermost"):
+                                # the documented shorthands lsymeig / usymeig
+                                short = xitorch.linalg.lsymeig if mode == "lowest" else xitorch.linalg.usymeig
+                                evals, evecs = short(A, neig=k, M=M, method=method, **opts)
+                            else:
+                                evals, evecs = xitorch.linalg.symeig(A, neig=k if kGiven else None, mode=mode, M=M, method=method, **opts)
                         vd = verdicts_symeig(evals, evecs, Am, Mm, idx, tol)
                         failed = [a for a, ok in vd if not ok]
                     except Exception as e:
